@@ -321,7 +321,10 @@ func I5(rc *RC) {
 		bad = append(bad, "no return")
 	}
 	// every element gets its own 8-byte window of the buffer
-	if put := regexp.MustCompile(`PutUint64\((%\w+)\[([^\]]*)\], uint64\(\$in\[(%\w+)\]\)\)`).FindStringSubmatch(txt); put != nil {
+	if !strings.Contains(txt, "PutUint64(") && !strings.Contains(txt, "binary.Write(") {
+		bad = append(bad, "no fixed-width encoding of the elements into the hashed buffer")
+	}
+	if put := regexp.MustCompile(`PutUint64\((%\w+)\[([^\]]*)\], uint64\(\$in\[(%\w+|@r\d*)\]\)\)`).FindStringSubmatch(txt); put != nil {
 		i := put[3]
 		ok := put[2] == "("+i+" * 8):(("+i+" * 8) + 8)" || put[2] == "(8 * "+i+"):((8 * "+i+") + 8)"
 		if !ok {
